@@ -41,12 +41,20 @@ def gen(chk, tier):
             for t in range(len(progs)):
                 cases.append(qc.case_line("c02", pre, progs, s, " solo=%d" % t))
     chk.cov["states"] = nst
+    # nil VALUES (token P0 = Push(nil), prefill 0): the queue tolerates them; a Pop that takes one returns nil
+    nl = []
+    for pre, progs in [([0], [["O"], ["P1"]]), ([], [["P0", "O"], ["O"]]), ([0, 7], [["O", "O"], ["P0"]]), ([], [["P0"], ["P0"], ["O"]]),
+                       ([5, 0], [["O"], ["O"], ["P2"]])]:
+        n, scheds = qc.enum_schedules(pre, progs, "edges", 600 if quick else 20000)
+        for s in scheds:
+            for t in range(len(progs)):
+                nl.append(qc.case_line("c02", pre, progs, s, " solo=%d" % t))
     rd = []
     for pre, progs in qc.programs_medium(rng, 200 if quick else 5000, [(3, 4), (4, 3), (4, 5)]):
         total = sum(len(p) for p in progs)
         s = qc.random_schedule(rng, len(progs), rng.range(3, 7 * total))
         rd.append(qc.case_line("c02", pre, progs, s, " solo=%d" % rng.below(len(progs))))
-    return [("solo-from-every-reachable-state", cases), ("solo-after-random-prefix", rd)]
+    return [("solo-from-every-reachable-state", cases), ("solo-after-random-prefix", rd), ("nil-values", nl)]
 
 
 def run(chk):
